@@ -26,10 +26,10 @@ func init() {
 
 // reviewedOrderIndependent: functions whose early exit from a map range is order independent, with the table rule that proves it.
 var reviewedOrderIndependent = map[string]string{
-	"note.Degree.simpleSemitone":     "TAB-DEGREE `unique`: at most one Major/Perfect and one Minor row per number, so at most one iteration can match a case",
-	"note.Degree.Semitone":           "TAB-DEGREE `unique` (pre-split form of simpleSemitone)",
-	"note.NewAccidental":             "TAB-NOTE `distinct`: all accidental spellings are pairwise distinct, so at most one entry matches",
-	"op.KeyConversionChain.Convert":  "TAB-CIRCLE partition: every spelling of a member lies in the same slot, so each of them converts to the same next member; the first success is taken",
+	"note.Degree.simpleSemitone":      "TAB-DEGREE `unique`: at most one Major/Perfect and one Minor row per number, so at most one iteration can match a case",
+	"note.Degree.Semitone":            "TAB-DEGREE `unique` (pre-split form of simpleSemitone)",
+	"note.NewAccidental":              "TAB-NOTE `distinct`: all accidental spellings are pairwise distinct, so at most one entry matches",
+	"op.KeyConversionChain.Convert":   "TAB-CIRCLE partition: every spelling of a member lies in the same slot, so each of them converts to the same next member; the first success is taken",
 	"op.KeyConversionChain.Convert$1": "see op.KeyConversionChain.Convert",
 }
 
@@ -1029,12 +1029,12 @@ func ruleNonDet(c *Ctx) {
 
 func ruleIOLayer(c *Ctx) {
 	allowed := map[string]map[string]string{
-		"os.Stdin":  {"cmd.readFileOrStdin": "the one place that selects stdin"},
-		"os.Stdout": {"cmd.getOutput": "the one place that selects stdout"},
-		"os.Stderr": {"cmd.rootCmd.PersistentPreRun": "logger set-up"},
-		"os.Open":   {"cmd.readFileOrStdin": "FILE argument", "util.OpenAndParse": "dictionary files"},
-		"os.Create": {"cmd.getOutput": "-o file"},
-		"fmt.Print": {"cmd.midiCmdPortIn.RunE": "midi port listing (not a data command)", "cmd.midiCmdPortOut.RunE": "midi port listing (not a data command)", "input/ast.": "generated parser trace (judged by DEBUGOUT)"},
+		"os.Stdin":    {"cmd.readFileOrStdin": "the one place that selects stdin"},
+		"os.Stdout":   {"cmd.getOutput": "the one place that selects stdout"},
+		"os.Stderr":   {"cmd.rootCmd.PersistentPreRun": "logger set-up"},
+		"os.Open":     {"cmd.readFileOrStdin": "FILE argument", "util.OpenAndParse": "dictionary files"},
+		"os.Create":   {"cmd.getOutput": "-o file"},
+		"fmt.Print":   {"cmd.midiCmdPortIn.RunE": "midi port listing (not a data command)", "cmd.midiCmdPortOut.RunE": "midi port listing (not a data command)", "input/ast.": "generated parser trace (judged by DEBUGOUT)"},
 		"os.ReadFile": {}, "os.WriteFile": {}, "os.OpenFile": {},
 	}
 	isAllowed := func(what, fn string) (string, bool) {
